@@ -41,8 +41,12 @@ def scan_of(prog, body, param=1):
                 clos = closure_of_local(prog, body, l)
         if clos is not None:
             scans.append((bb, t, clos, kind))
+    if not scans:
+        loop = _loop_scan(prog, body, param)
+        if loop is not None:
+            return loop
     if len(scans) != 1:
-        raise charset.Opaque("expected exactly one character scan (find/position/any/all with a closure), found %d" % len(scans))
+        raise charset.Opaque("expected exactly one character scan (find/position/any/all with a closure, or one `for` loop over the characters), found %d" % len(scans))
     bb, t, clos, kind = scans[0]
     sw = body.blocks[t["target"]]["t"]
     if sw["k"] != "switch":
@@ -76,6 +80,49 @@ def scan_of(prog, body, param=1):
     receiver_ok = ("param", param) in leaves and not bad_calls and not any(x[0] == "const" for x in leaves)
     return {"found": found[0], "notfound": notfound[0], "bad": acc, "width": width, "receiver_ok": receiver_ok,
             "receiver_via": sorted(bad_calls), "bb": bb, "cells": ncells}
+
+
+def _loop_scan(prog, body, param):
+    """`for x in input.chars()/iter()/char_indices()/.. { if bad(x) { return Err(..) } }` — the loop form of the scan."""
+    IT_NEXT = "core::iter::traits::iterator::Iterator::next"
+    nexts = [(bb, t) for bb, t in body.calls() if IT_NEXT in callee_names(t)]
+    if len(nexts) != 1:
+        return None
+    hbb, ht = nexts[0]
+    if ht.get("dest") is None or ht["dest"]["p"] or ht.get("target") is None:
+        return None
+    opt = ht["dest"]["l"]
+    sw = [x for x in tables.discr_switches(body) if x["place"]["l"] == opt and not x["place"]["p"]]
+    if len(sw) != 1:
+        return None
+    some_bb = sw[0]["arms"].get("Some")
+    none_bb = sw[0]["arms"].get("None", sw[0]["otherwise"])
+    if some_bb is None:
+        some_bb = sw[0]["otherwise"]
+    g = Cfg(body)
+    if hbb not in reach(g.succs, [some_bb]):
+        return None   # not a loop
+    bad, err_ok, width, ncells = charset.loop_scan_set(prog, body, some_bb, hbb, opt)
+    # receiver provenance: the iterator is made from the validated input itself
+    fl = Flow(body)
+    recv = op_local(ht["args"][0])
+    leaves, _ = fl.sources([recv] if recv is not None else [], through_call=lambda t2, k=None: (0,), follow_mut=False)
+    bad_calls = []
+    for leaf in leaves:
+        if leaf[0] == "call" and leaf[1] != hbb:
+            ns = callee_names(body.blocks[leaf[1]]["t"])
+            if not any(n in SCAN_RECEIVER_OK for n in ns):
+                bad_calls.append(ns[0])
+    receiver_ok = ("param", param) in leaves and not bad_calls and not any(x[0] == "const" for x in leaves)
+    return {"found": None, "err_ok": err_ok, "notfound": none_bb, "bad": bad, "width": width, "receiver_ok": receiver_ok,
+            "receiver_via": sorted(bad_calls), "bb": hbb, "cells": ncells, "form": "loop"}
+
+
+def found_rejects(V, sc):
+    """a hit of the scan always leads to an Err return"""
+    if sc["found"] is None:
+        return bool(sc.get("err_ok")) and bool(sc["bad"])
+    return only_err_returns(V, sc["found"])
 
 
 def name_rules(rep, prog, cfg):
@@ -138,7 +185,7 @@ def name_rules(rep, prog, cfg):
         rep.fail("C07.name-alphabet", cfg + "/alphabet", V.loc(V.span), "the command-name validator is not analysable (%s): failing closed" % e)
         return
     valid = charset.complement(sc["bad"], sc["width"])
-    rep.check(only_err_returns(V, sc["found"]) and sc["receiver_ok"], "C07.name-alphabet", cfg + "/invalid char rejected", V.loc(V.span),
+    rep.check(found_rejects(V, sc) and sc["receiver_ok"], "C07.name-alphabet", cfg + "/invalid char rejected", V.loc(V.span),
               "a character outside the accepted set does not always lead to an Err return, or the scan does not run over the name itself (via %s)" % sc["receiver_via"])
     rep.check(charset.subset(valid, MPD_WORD), "C07.name-alphabet", cfg + "/alphabet ⊆ MPD word chars", V.loc(V.span),
               "command names may contain %s; MPD's command-word alphabet is %s — whitespace, control characters or quotes in a name split or change the request line"
@@ -283,7 +330,7 @@ def arg_rules(rep, prog, cfg):
         rep.check(sc["bad"] == [(10, 10)], "C07.arg-lf", cfg + "/rejects exactly LF", V.loc(V.span),
                   "the argument validator rejects %s, it must reject the line feed (and nothing that legitimately occurs in arguments)" % charset.fmt_set(sc["bad"]),
                   detail={"rejects": charset.fmt_set(sc["bad"])})
-        rep.check(only_err_returns(V, sc["found"]) and sc["receiver_ok"], "C07.arg-lf", cfg + "/scan over the raw bytes", V.loc(V.span),
+        rep.check(found_rejects(V, sc) and sc["receiver_ok"], "C07.arg-lf", cfg + "/scan over the raw bytes", V.loc(V.span),
                   "the line-feed scan does not run directly over the bytes it was given (goes through %s), or a hit does not lead to Err: "
                   "a lossy conversion in between can hide a line feed" % (sc["receiver_via"] or "?"))
     except charset.Opaque as e:
